@@ -3,7 +3,7 @@
 import json, os, re
 V = os.path.dirname(os.path.dirname(os.path.abspath(__file__)))
 rows = []
-for sid in sorted(os.listdir(V + '/seeded')):
+for sid in sorted(x for x in os.listdir(V + '/seeded') if os.path.exists(V + '/seeded/%s/meta.json' % x)):
     m = json.load(open(V + '/seeded/%s/meta.json' % sid))
     notes = open(V + '/seeded/%s/notes.md' % sid).read() if os.path.exists(V + '/seeded/%s/notes.md' % sid) else ''
     title = m.get('summary')
